@@ -7,6 +7,8 @@ from sfv.framework import Ctx, Property
 from sfv.rt import wfcheck, wfgen
 from sfv.translate import stepguards
 
+# keys of the two defects repaired in /repo (88472de executor, 4e89c00 loop combinator): recorded as `fixed` in
+# known_findings.d/C04.jsonl, so an occurrence is a VIOLATION again (regression)
 KNOWN_LOOP_HANG = "hang:LoopCombinatorStep-keeps-reading-after-FAILED-termination-on-another-input-port"
 KNOWN_CANCEL = "executor-_cancel-marks-closed:FAILED-termination-on-an-output-port:steps-still-running-when-run-raises"
 
@@ -68,6 +70,24 @@ def oracle(spec: dict, res: dict, failing: bool):
                 yield "failure:pending-task-after-raise", f"tasks still pending after the executor raised: {res['pending'][:6]}"
 
 
+# failing workflows that always run first: the witnesses of the two repaired defects
+FAIL_CORPUS = [
+    # a loop whose `limit` input comes from a transformer that raises (before 4e89c00: LoopCombinatorStep read forever)
+    {"nports": 6, "sources": [{"port": 0, "value": 5}, {"port": 1, "value": 3}], "closed": [], "nodes": [
+        {"id": 0, "kind": "tf", "ins": [1], "outs": [2], "fn": "add", "k": 5, "fail": {"tag": "0"}},
+        {"id": 1, "kind": "loop", "ins": [1, 2], "outs": [3], "k": 3},
+        {"id": 2, "kind": "tf", "ins": [0], "outs": [4, 5], "fn": "split", "k": -2}]},
+    # two independent branches, one fails at once, the other is a scatter -> jobs -> gather pipeline still running
+    # (before 88472de: run() raised while the second branch was not terminated)
+    {"nports": 8, "sources": [{"port": 0, "value": 1}, {"port": 1, "value": [1, 2, 3, 4]}], "closed": [], "nodes": [
+        {"id": 0, "kind": "tf", "ins": [0], "outs": [2], "fn": "add", "k": 1, "fail": {"tag": "0"}},
+        {"id": 1, "kind": "scatter", "ins": [1], "outs": [3, 4]},
+        {"id": 2, "kind": "exec", "ins": [3], "outs": [5], "k": 1},
+        {"id": 3, "kind": "tf", "ins": [5], "outs": [6], "fn": "add", "k": 1},
+        {"id": 4, "kind": "gather", "ins": [6, 4], "outs": [7], "depth": 1}]},
+]
+
+
 def _fail_node(spec: dict):
     """index of the step that fails: the transformer that raises, or the scatter fed with a non-list (escape mode)"""
     for nd in spec["nodes"]:
@@ -106,10 +126,11 @@ class C04(Property):
     ]
     technique = "Lean 4 transition system of the executor protocol (progress, variant, invariants, negative witness) + randomized real-engine runs under controlled interleavings with a watchdog"
     level_text = ("grade B (partial): on the abstract step-graph model every scheduler terminates within n step actions with all steps "
-                  "terminated, failure-free runs return with all steps COMPLETED/SKIPPED, a failed step makes the executor raise; the clause "
-                  "'every step is terminated when the executor raises' is proved FALSE of the code (witness) and TRUE of the repaired _cancel; "
-                  "asyncio, DB and job-pipeline layers abstracted")
-    level_note = "Lean kernel, axioms within {propext, Classical.choice, Quot.sound}; model tied by K on every generated workflow; known finding for the _cancel defect"
+                  "terminated, failure-free runs return with all steps COMPLETED/SKIPPED, a failed step makes the executor raise and every "
+                  "step is terminated when it does (full strength for the current source: _cancel calls close(), extracted on every run); "
+                  "a failed loop input never dead-locks the loop combinator; asyncio, DB and job-pipeline layers abstracted")
+    level_note = ("Lean kernel, axioms within {propext, Classical.choice, Quot.sound}; model tied by T (stepguards) and by K on every "
+                  "generated workflow; the two former findings are fixed in /repo (88472de, 4e89c00) and guarded by witness workflows")
     assumptions = [
         "well-formed workflow: finite DAG, every input port has a producer or is pre-loaded and terminated, every consumer-less port is a "
         "workflow output, multi-input grouping steps see the same tag set on all inputs",
@@ -123,17 +144,46 @@ class C04(Property):
         if ctx.tier == "thorough":
             n, k = 200, 6
         else:
-            n, k = 40, 2
+            n, k = 30, 2
         if ctx.mode == "search":
             n, k = n * 2, k * 3
         return n, k
+
+
+    CHUNK = 8
+
+    def _runs_for(self, ctx, pre, items, i, job_of, **kw):
+        """runs of item i; the items of a chunk run in parallel worker processes (wfcheck.run_many)"""
+        if i not in pre:
+            chunk = items[i:i + self.CHUNK]
+            outs = wfcheck.run_many([job_of(it) for it in chunk], ctx.scratch, **kw)
+            pre.update({i + j: o for j, o in enumerate(outs)})
+        return pre.pop(i)
 
     def explore(self, ctx: Ctx) -> None:
         rng = ctx.rng
         n, k = self._plan(ctx)
         lines, metas = [], []
         hangs = 0
+        items, pre = [], {}
         for i in range(n):
+            feats = {"exec": 4} if rng.random() < 0.3 else ({"loop": 3} if rng.random() < 0.3 else None)
+            spec = wfgen.gen_spec(rng, size=rng.randint(2, 12), features=feats)
+            if i < len(wfgen.CORPUS):
+                spec = json.loads(json.dumps(wfgen.CORPUS[i]))
+            failing = rng.random() < 0.5
+            fspec = wfgen.choose_failure(rng, spec) if failing else None
+            if fspec is None:
+                failing = False
+            nc = len(wfgen.CORPUS)
+            if nc <= i < nc + len(FAIL_CORPUS):
+                fspec, failing = json.loads(json.dumps(FAIL_CORPUS[i - nc])), True
+                spec = fspec
+            seeds = [rng.randrange(1 << 30) for _ in range(k)]
+            if i < len(wfgen.CORPUS):
+                seeds = [2 + j for j in range(k)]      # corpus: fixed schedules, the first one with reverse job completion order
+            items.append((spec, failing, fspec or spec, seeds))
+        for i, (spec, failing, run_spec, seeds) in enumerate(items):
             if ctx.out_of_time():
                 ctx.extra["incomplete"] = True
                 break
@@ -145,19 +195,10 @@ class C04(Property):
             if hangs >= 4:
                 ctx.notes.append("stopped generating after 4 hanging runs (each costs the whole watchdog time)")
                 break
-            feats = {"exec": 4} if rng.random() < 0.3 else ({"loop": 3} if rng.random() < 0.3 else None)
-            spec = wfgen.gen_spec(rng, size=rng.randint(2, 12), features=feats)
-            if i < len(wfgen.CORPUS):
-                spec = json.loads(json.dumps(wfgen.CORPUS[i]))
+            if i < len(wfgen.CORPUS) + len(FAIL_CORPUS):
                 ctx.corpus_replayed += 1
-            failing = rng.random() < 0.5
-            fspec = wfgen.choose_failure(rng, spec) if failing else None
-            if fspec is None:
-                failing = False
-            run_spec = fspec or spec
-            seeds = [rng.randrange(1 << 30) for _ in range(k)]
             # default asyncio order first, then the PRNG schedules; a hanging workflow is not run again
-            runs = wfcheck.run_schedules(run_spec, seeds, ctx.scratch, timeout=20.0, stop_on_hang=True)
+            runs = self._runs_for(ctx, pre, items, i, lambda it: {"spec": it[2], "seeds": it[3]}, timeout=20.0, stop_on_hang=True)
             hangs += sum(1 for r in runs if r["outcome"]["kind"] == "hang" and not any(
                 k == KNOWN_LOOP_HANG for k, _ in oracle(run_spec, r, failing)))
             fail_node = _fail_node(run_spec)
@@ -179,7 +220,7 @@ class C04(Property):
                     continue
                 for lname, lc in r.get("loop_combinators", {}).items():
                     streams = [",".join(v["stream"]) or "-" for v in lc["inputs"].values()]
-                    lines.append("loopcomb 0 " + " ".join(streams))
+                    lines.append("loopcomb g " + " ".join(streams))
                     metas.append(("loopcomb", run_spec, failing, [dict(r, _lc=(lname, lc))]))
                     ctx.count("loop-combinator-runs")
             words = wfcheck.spec_words(run_spec)
